@@ -133,6 +133,8 @@ class G:
         return "%d.%0*d" % (whole, nd, frac)
 
     def f32_text(self, signed=True):
+        if self.chance(0.15):
+            return self.f32_midpoint_text(signed)
         v = self.pick(["0", "1", "1.5", "2.25", "10.125", "0.5", "3.75", "29.97", "23.976", "59.94", "60", "25", "0.001", "12345.678"])
         if signed and self.chance(0.3):
             v = "-" + v
@@ -140,6 +142,27 @@ class G:
 
     def hexbytes(self, n):
         return bytes(self.r.randrange(256) for _ in range(n))
+
+    def f32_midpoint_text(self, signed=True):
+        """a decimal just above / below / at the midpoint of two adjacent positive f32 values with a short integer part"""
+        import struct
+        bits = self.pick([0x4B800000, 0x4B800001, 0x4C000000, 0x3F800000, 0x3F800001, 0x15AE43FD, self.r.randrange(0x3A000000, 0x4E000000)])
+        x = Fraction(struct.unpack(">f", struct.pack(">I", bits))[0])
+        y = Fraction(struct.unpack(">f", struct.pack(">I", bits + 1))[0])
+        mid = (x + y) / 2
+        from decimal import Decimal, getcontext
+        getcontext().prec = 400
+        t = format(Decimal(mid.numerator) / Decimal(mid.denominator), "f")
+        if "." not in t:
+            t += ".0"
+        kind = self.r.randrange(3)
+        if kind == 0:
+            t = t + "0" * self.r.randint(0, 12) + "1"                   # just above the midpoint
+        elif kind == 1:
+            # just below: decrement the last digit of the exact midpoint expansion and append nines
+            t = t.rstrip("0")
+            t = t[:-1] + str(int(t[-1]) - 1) + "9" * self.r.randint(10, 25) if t[-1] not in ".0" else t + "0"
+        return ("-" + t) if (signed and self.chance(0.3)) else t
 
     def iv(self):
         """16 octets; edge cases: leading zero nibbles / octets, all zero, all ones, small numbers"""
@@ -149,12 +172,21 @@ class G:
         return self.hexbytes(16)
 
 
+# tag names that only LOOK like known tags: a flag tag with a suffix or a value, a value tag without its colon, a longer name
+NEAR_MISS_TAGS = ["#EXT-X-ENDLISTX", "#EXT-X-ENDLIST-POLICY:KEEP", "#EXT-X-ENDLIST:1", "#EXT-X-I-FRAMES-ONLY:YES", "#EXT-X-I-FRAMES-ONLY-HINT",
+                  "#EXT-X-INDEPENDENT-SEGMENTS-HINT:MODE=\"soft\"", "#EXT-X-INDEPENDENT-SEGMENTS:NO", "#EXT-X-DISCONTINUITY:reason=ad-break",
+                  "#EXT-X-DISCONTINUITYX", "#EXT-X-KEY", "#EXT-X-MAP", "#EXT-X-START", "#EXT-X-SESSION-KEY", "#EXT-X-KEYS:METHOD=NONE",
+                  "#EXT-X-MAPPING:URI=\"x\"", "#EXT-X-MEDIA-SEQUENCEX:5", "#EXT-X-TARGETDURATIONS:9", "#EXT-X-PLAYLIST-TYPES:VOD", "#EXTINFO:1,",
+                  "#EXT-X-BYTERANGES:1@2", "#EXT-X-DATERANGES:ID=\"x\"", "#EXT-X-PROGRAM-DATE-TIMES:x", "#EXT-X-STREAM-INFO:BANDWIDTH=1",
+                  "#EXT-X-MEDIAS:TYPE=AUDIO", "#EXT-X-SESSION-DATAS:DATA-ID=\"x\"", "#EXT-X-I-FRAME-STREAM-INFO:BANDWIDTH=1", "#EXT-X-VERSIONS:3",
+                  "#EXT-X-DISCONTINUITY-SEQUENCES:3", "#EXT-X-TARGETDURATION", "#EXT-X-MEDIA-SEQUENCE"]
+
 # ---------------------------------------------------------------- keys
 KEYFORMATS = [None, "identity", "com.apple.streamingkeydelivery", "com.microsoft.playready",
               "urn:uuid:edef8ba9-79d6-4ace-a3c8-27dcd51d21ed", "com.example.drm",
               # near misses of the well-known identifiers: other spellings are OTHER formats (quoted strings compare byte-wise)
               "IDENTITY", "Identity", "urn:uuid:EDEF8BA9-79D6-4ACE-A3C8-27DCD51D21ED", "com.apple.StreamingKeyDelivery",
-              "com.microsoft.PlayReady", "identity ", "urn:uuid:edef8ba9-79d6-4ace-a3c8-27dcd51d21e"]
+              "com.microsoft.PlayReady", "identity ", "urn:uuid:edef8ba9-79d6-4ace-a3c8-27dcd51d21e", "", " "]
 KF_ATOM = {"identity": "identity", "com.apple.streamingkeydelivery": "fairplay",
            "urn:uuid:edef8ba9-79d6-4ace-a3c8-27dcd51d21ed": "widevine",
            "com.microsoft.playready": "playready"}
@@ -325,9 +357,10 @@ def gen_media(g, nseg=None, feature_p=0.35, max_formats=3, with_keys=True):
         elif prev_range is not None and g.chance(0.2):
             s["uri"] = prev_range[0]
             s["range"] = (g.small(1000), None)
-        s["daterange"] = gen_daterange(g) if g.chance(feature_p * 0.5) else None
+        prev_dr = [x["daterange"] for x in segs if x["daterange"] is not None]
+        s["daterange"] = (dict(g.pick(prev_dr)) if (prev_dr and g.chance(0.4)) else gen_daterange(g)) if g.chance(feature_p * 0.5) else None
         if g.chance(0.1):
-            unknown.append((i, g.pick(["#EXT-X-FOO:bar", "#EXT-UNKNOWN", "#EXTFOO:1,2", "#EXT-X-CUSTOM:A=\"b,c\""])))
+            unknown.append((i, g.pick(["#EXT-X-FOO:bar", "#EXT-UNKNOWN", "#EXTFOO:1,2", "#EXT-X-CUSTOM:A=\"b,c\""] + NEAR_MISS_TAGS)))
         # bookkeeping for ranges
         if s["range"] is not None:
             start = s["range"][1] if s["range"][1] is not None else prev_range[1]
@@ -730,8 +763,15 @@ def gen_master(g, consistent=True):
         a["sdata"].append(d)
     for _ in range(g.pick([0, 0, 1, 2])):
         a["skeys"].append(gen_key(g))
+    if a["skeys"] and g.chance(0.35):
+        k2 = dict(a["skeys"][0])
+        if g.chance(0.5):
+            k2["iv"] = None if k2["iv"] is not None else g.iv()
+        else:
+            k2["format"] = {None: "identity", "identity": None}.get(k2["format"], None)
+        a["skeys"].append(k2)
     for _ in range(g.pick([0, 0, 1, 2])):
-        a["unknown"].append(g.pick(["#EXT-X-FOO:bar", "#EXT-UNKNOWN", "#EXT-X-CUSTOM:A=\"b,c\""]))
+        a["unknown"].append(g.pick(["#EXT-X-FOO:bar", "#EXT-UNKNOWN", "#EXT-X-CUSTOM:A=\"b,c\""] + NEAR_MISS_TAGS))
     return a
 
 
